@@ -151,7 +151,8 @@ var buildClasses = []struct {
 	class string
 }{
 	{regexp.MustCompile(`duplicate case`), "D5-duplicate-case"},
-	{regexp.MustCompile(`refers? to unexported field|unexported field or method|\.age undefined`), "D6-unexported-source-field"},
+	// D6 is about READING an unexported field of the SOURCE: the selector starts at `source` (a write to an inaccessible target field is not this class)
+	{regexp.MustCompile(`\(?\*?source\)?(\.\w+|\[\w+\])*\.\w+ undefined \((cannot refer to unexported field|type \S+ has no field or method)|source\.age undefined`), "D6-unexported-source-field"},
 	{regexp.MustCompile(`cannot compare|struct containing .* cannot be compared|invalid operation: .* != .*\(struct`), "D7-uncomparable-zero-guard"},
 	{regexp.MustCompile(`Impl redeclared in this block`), "D4-redeclared"},
 	{regexp.MustCompile(`undefined: p\.lvDebugHidden`), "D24-unexported-enum-member"},
